@@ -207,6 +207,15 @@ def channel_step_rows(repo, col, R):
     col.check(src_v.op == "sub" and src_v.args[0].op == "param" and src_v.args[0].name == "states" and src_v.args[1].op == "const" and
               src_v.args[1].name == "v", R, fi, "the voltage argument is the state `v`", "states['v'][rows]",
               f"the voltage argument is gathered from `{src_v.short(50)}`", node=call)
+    # each gather reads the names of its own kind: states by the channel's state names (and the membrane currents), parameters by
+    # its parameter names
+    for lab_, a_, want_, other_ in (("states", args[0], "channel_states", "channel_params"), ("params", args[3], "channel_params", "channel_states")):
+        names_t = a_.args[1] if (a_.op == "call" and a_.name in KEEP and len(a_.args) >= 2) else (a_.args[2] if a_.op == "dictcomp" and len(a_.args) == 3 else None)
+        if names_t is None:
+            continue
+        found_ = {x.name for x in names_t.walk() if x.op == "attr" and x.name in ("channel_states", "channel_params")}
+        col.check(want_ in found_ and other_ not in found_, R, fi, f"the {lab_} handed to update_states are gathered by the channel's own {want_}",
+                  f"names from channel.{want_}", f"the {lab_} argument is gathered with the names of {sorted(found_)}", node=call)
     recv = t.args[0]
     pres = T.find(r_s, lambda x: x.op == "attr" and x.name == "_name")
     gci = T.find(r_s, lambda x: x.op == "const" and x.name == "global_comp_index")
